@@ -27,13 +27,43 @@ ASSUMPTIONS = ["pandas.Categorical(data, categories=levels) maps values outside 
 def spec_fields_read(P: Project) -> Dict[str, List[str]]:
     """field -> where it is read, for the `spec` parameter of _evaluate_factor and its callees."""
     reads: Dict[str, List[str]] = {}
-    for name in ("_evaluate_factor", "_evaluate", "_check_for_nulls"):
-        f = P.func(f"{MAT}.{name}")
-        if "spec" not in param_names(f.node):
+    # _evaluate_factor and every method of the materializer it hands its `spec` to (followed through the call graph, so that
+    # splitting or merging the small evaluation helpers changes nothing)
+    work, seen = [("_evaluate_factor", "spec")], set()
+    while work:
+        name, sp_ = work.pop()
+        if (name, sp_) in seen:
+            continue
+        seen.add((name, sp_))
+        f = None
+        for cls in P.mro(MAT):
+            if name in cls.methods:
+                f = cls.methods[name]
+                break
+        if f is None:
+            if name == "_evaluate_factor":
+                raise AnalysisError("C09.R1: FormulaMaterializer._evaluate_factor not found")
+            continue
+        if sp_ not in param_names(f.node):
             continue
         for n in walk_no_nested(f.node):
-            if isinstance(n, ast.Attribute) and isinstance(n.value, ast.Name) and n.value.id == "spec" and isinstance(n.ctx, ast.Load):
+            if isinstance(n, ast.Attribute) and isinstance(n.value, ast.Name) and n.value.id == sp_ and isinstance(n.ctx, ast.Load):
                 reads.setdefault(n.attr, []).append(f"{name}:{n.lineno}")
+            if isinstance(n, ast.Call) and isinstance(n.func, ast.Attribute) and dotted(n.func.value) == "self":
+                callee = None
+                for cls in P.mro(MAT):
+                    if n.func.attr in cls.methods:
+                        callee = cls.methods[n.func.attr]
+                        break
+                if callee is None:
+                    continue
+                formals = [x for x in param_names(callee.node) if x not in ("self", "cls")]
+                for i_, a_ in enumerate(n.args):
+                    if isinstance(a_, ast.Name) and a_.id == sp_ and i_ < len(formals):
+                        work.append((n.func.attr, formals[i_]))
+                for k_ in n.keywords:
+                    if k_.arg and isinstance(k_.value, ast.Name) and k_.value.id == sp_:
+                        work.append((n.func.attr, k_.arg))
     # stateful transforms receive the whole spec as `_spec`; fields they read:
     for f in P.functions.values():
         if "_spec" in param_names(f.node) and f.module.name.startswith("formulaic.transforms"):
@@ -53,11 +83,11 @@ def r1(ctx):
         raise AnalysisError("C09.R1: the pooled ModelSpec.from_spec(...) call was not found")
     pooled = {k.arg: k.value for k in calls[0].keywords if k.arg}
     ctx.floor("C09.R1", len(pooled), 4, "keyword arguments of the pooled spec")
-    upd = pf.locals_named("update_pooled_spec")
-    mp = param_names(upd.node)[0]
+    from .shared import pooling_visitor
+    vis_, mp, _every = pooling_visitor(P)   # today: the nested update_pooled_spec
     fed: Dict[str, Set[str]] = {}
     partial: Dict[str, str] = {}
-    for c in ast.walk(upd.node):
+    for c in ast.walk(vis_):
         if isinstance(c, ast.Call) and isinstance(c.func, ast.Attribute) and c.func.attr in ("add", "update") and isinstance(c.func.value, ast.Name):
             for n in ast.walk(c):
                 if isinstance(n, ast.Attribute) and isinstance(n.value, ast.Name) and n.value.id == mp:
